@@ -85,8 +85,8 @@ impl Check for C20 {
     }
     fn cases(&self, tier: Tier) -> u64 {
         match tier {
-            Tier::Quick => 60_000,
-            Tier::Thorough => 2_500_000,
+            Tier::Quick => 400_000,
+            Tier::Thorough => 15_000_000,
         }
     }
     fn stack_bytes(&self) -> usize {
